@@ -439,9 +439,10 @@ def _find_markers_from_p_mask_worker(
             f"col0 ({col0}) is not an integer multiple of 8")
 
     # check that we got a contiguous set of indices
+    # (a single index is trivially contiguous)
     delta = np.diff(idx_values)
     delta = np.unique(delta)
-    if len(delta) != 1 or delta[0] != 1:
+    if len(idx_values) > 1 and (len(delta) != 1 or delta[0] != 1):
         raise RuntimeError(
             "Got non-contiguous set of indices")
     idx_min = idx_values[0]
